@@ -183,6 +183,22 @@ def _chunk_entry(args):
     return 'chunk', out
 
 
+_GC = {'n': 0}
+
+
+def gc_tick(every=200):
+    """Called once per explored state by explorers that run library threads.  Automatic cyclic garbage collection
+    is switched off and replaced by collections at this safe point (main thread, between states): CPython 3.12 can
+    deadlock when the collector finalises an unfinished prefetching generator (whose finally-block joins a thread)
+    while some thread is inside threading's shutdown-lock bookkeeping."""
+    import gc
+    if _GC['n'] == 0:
+        gc.disable()
+    _GC['n'] += 1
+    if _GC['n'] % every == 0:
+        gc.collect()
+
+
 class Stats(collections.Counter):
     """Additive counters that survive the trip back from a worker process."""
 
